@@ -137,6 +137,22 @@ SimNext == /\ d < MaxDepth
            /\ d' = Depth(t')
 SimSpec == Init /\ [][SimNext]_vars
 
+(* Nested sums in bracket-needing positions (depth 4), a family the depth-2 enumeration cannot reach and random growth rarely hits:
+     Outer[ Add(Inner, s) ]  and  Outer[ Add(s, Inner) ]
+   Inner = a sum used as base / numerator / factor:  (p + q)^k,  (p + q) / r,  (p + q) * r,  r / (p + q)
+   s     = any term of depth <= SibDepth;   Outer = x * . , . * a0 , x / . , . / x , .^2 , .^-1 , -(.) , sin(.) *)
+NestLeaves == {"x"} \cup Params
+Inner(f, p, q, r, k) == LET sum == Bin("Add", Leaf(p), Leaf(q)) IN
+   CASE f = 1 -> Bin("Pow", sum, Leaf(k)) [] f = 2 -> Bin("Div", sum, Leaf(r)) [] f = 3 -> Bin("Mul", sum, Leaf(r)) [] f = 4 -> Bin("Div", Leaf(r), sum)
+Outer(o, e) ==
+   CASE o = 1 -> Bin("Mul", Leaf("x"), e) [] o = 2 -> Bin("Mul", e, Leaf("a0")) [] o = 3 -> Bin("Div", Leaf("x"), e) [] o = 4 -> Bin("Div", e, Leaf("x"))
+     [] o = 5 -> Bin("Pow", e, Leaf("2")) [] o = 6 -> Bin("Pow", e, Leaf("-1")) [] o = 7 -> Un("Neg", e) [] o = 8 -> Un("sin", e)
+NestInit == \E o \in 1..8, f \in 1..4, p \in NestLeaves, q \in NestLeaves, r \in NestLeaves, k \in IntExps, s \in Sib, left \in BOOLEAN :
+              /\ (f # 1 => k = CHOOSE k0 \in IntExps : TRUE) /\ (f = 1 => r = "x") /\ p # q
+              /\ t = Outer(o, IF left THEN Bin("Add", Inner(f, p, q, r, k), s) ELSE Bin("Add", s, Inner(f, p, q, r, k)))
+              /\ d = Depth(t)
+NestSpec == NestInit /\ [][UNCHANGED vars]_vars
+
 (* invariants of the generator *)
 OnlyGrammar  == InGrammar(t)
 DepthTracked == d = Depth(t) /\ d <= MaxDepth
